@@ -28,6 +28,10 @@ extern unsigned frgv_assert_hook_hits;
 /* ---- native build (self-tests / replay of lowered code) ---------------------------- */
 #  include <stdio.h>
 #  include <stdlib.h>
+/* loop contracts woven into the lowered text are verification-only */
+#  define __CPROVER_assigns(...)
+#  define __CPROVER_loop_invariant(...)
+#  define __CPROVER_decreases(...)
 extern void frgv_native_assert_fail(const char *msg);
 #  define FRGV_ASSERT(c, msg) do { if(!(c)) frgv_native_assert_fail(msg); } while(0)
 #  define FRGV_TRAP() frgv_native_assert_fail("trap")
